@@ -728,6 +728,20 @@ def rule_G(ctx):
                 elif not same(got, want):
                     found.setdefault(('pair', 'value'), (fsd, 'shortest_distance(s, t) is the minimum total weight over the walks that respect the orientations',
                                                          dict(desc, query=[s, t], returned=got, minimum=want)))
+        # a sub-network extracted from the network (by a forward search): the network itself still answers as before
+        if n_graphs % 6 == 1 and len(nodes) >= 3:
+            ok, sub = H.guard(fsd, lambda: net.call('sub_network', nodes[0], 1e300, 'TOPOLOGIC', False))
+            if not ok:
+                found.setdefault(('pair', 'fails'), (fsd, 'sub_network does not fail', dict(desc, exception=sub)))
+            else:
+                for s in nodes:
+                    for t in nodes:
+                        n_queries += 1
+                        ok, got = H.guard(fsd, lambda: net.call('shortest_distance', s, t))
+                        want = d[(s, t)]
+                        if not ok or (want == INF and not (isinstance(got, (int, float)) and got < 0)) or (want != INF and not same(got, want)):
+                            found.setdefault(('pair', 'after-sub'), (fsd, 'after a sub-network has been extracted from it, the network still answers every pair with its shortest distance',
+                                                                     dict(desc, query=[s, t], returned=got, minimum=None if want == INF else want)))
         # all-pairs tables
         finite = sorted({v for v in d.values() if v != INF})
         cuts = [1e300] + sorted({c for v in finite for c in (v - 0.5, v, v + 0.5) if c >= 0})[:7]
